@@ -734,6 +734,32 @@ def py_norm_one(ty, v, fields_of=None):
 
 
 # ---------------------------------------------------------------------------------- Val JSON <-> native
+def chunk_bytes(raw):
+    """the native value of ByteArray is a sequence of chunks whose concatenation is the value (the model's Val.bytes);
+    chunking is below the model, so it is derived from the content (deterministic for replays): one chunk as list /
+    tuple, two or many chunks with boundaries that are no multiples of 3, empty chunks in front / between / behind"""
+    n = len(raw)
+    h = (sum(raw) * 31 + n) % 8
+    if n == 0:
+        return [[b''], (b'',), [b'', b''], (b'', b'', b'')][h % 4]
+    if h == 0:
+        return [raw]
+    if h == 1:
+        return (raw,)
+    if h == 2:
+        k = 1 if n < 3 else n // 3 + (1 if (n // 3) % 3 == 0 else 0)
+        return [raw[:k], raw[k:]]
+    if h == 3:
+        return tuple(raw[i:i + 1] for i in range(n))
+    if h == 4:
+        return [b'', raw]
+    if h == 5:
+        return (raw[:n // 2], b'', raw[n // 2:], b'')
+    if h == 6:
+        return [raw[i:i + 2] for i in range(0, n, 2)]
+    return tuple(raw[i:i + 4] for i in range(0, n, 4))
+
+
 def to_native(b, ty, v):
     """Val JSON -> the Python value user code would hold"""
     if v is None:
@@ -768,7 +794,7 @@ def to_native_one(b, ty, v):
         us = int(v['dur'])
         return pydt.timedelta(days=us // 86400000000, microseconds=us % 86400000000)
     if 'x' in v:
-        return [bytes(v['x'])]
+        return chunk_bytes(bytes(v['x']))
     if 'e' in v:
         p = ty['p']
         return getattr(b.enums[tuple(p['names'])], v['e'])
@@ -879,6 +905,15 @@ def node_of(el):
     txt = el.text
     return {'ns': q.namespace or '', 'n': q.localname, 'a': attrs, 'x': cps(txt) if txt else None,
             'c': [node_of(c) for c in el if isinstance(c.tag, str)]}
+
+
+def node_of_all(el):
+    """like node_of, with a comment / PI node that the parser kept shown as the model's pseudo node"""
+    if not isinstance(el.tag, str):
+        return {'ns': '', 'n': '<!>', 'a': [], 'x': cps(el.text) if el.text else None, 'c': []}
+    n = node_of(el)
+    n['c'] = [node_of_all(c) for c in el]
+    return n
 
 
 def el_of(node, parent=None, nsmap=None):
@@ -1288,6 +1323,8 @@ def facts_lean(f):
     return '''-- GENERATED by harness/xmlblock.py (T1) from /repo on every run. Do not edit.
 import SpyneModel.Client
 import SpyneModel.XmlAttr
+import SpyneModel.XmlSpelling
+import SpyneModel.XmlHistory
 namespace SpyneModel.Generated
 open SpyneModel
 
@@ -1311,12 +1348,22 @@ def factsAttr : Xml.FactsAttr where
   modifierChildSkipped := %s
   dataTextUnicode := %s
 
+def factsDoc : Xml.FactsDoc where
+  commentsRemoved := %s
+  pisRemoved := %s
+  bytesJoinBeforeEncode := %s
+
+def factsHist : Xml.FactsHist where
+  appendClearsMemo := %s
+
 end SpyneModel.Generated
 ''' % (f['nilRule'], str(f['xsiTypeCheck']).lower(), str(f['childAttrGuard']).lower(),
        str(f['emptyStringText']).lower(), str(f['streamSameTree']).lower(), str(f['emptyBodyGuard']).lower(),
        str(f['outHeaderTupleOk']).lower(),
        str(f['kwFalsyKept']).lower(), str(f['childAttrsIgnored']).lower(), str(f['attrSoftChecked']).lower(),
-       str(f['modifierChildSkipped']).lower(), str(f['dataTextUnicode']).lower())
+       str(f['modifierChildSkipped']).lower(), str(f['dataTextUnicode']).lower(),
+       str(f['commentsRemoved']).lower(), str(f['pisRemoved']).lower(), str(f['bytesJoinBeforeEncode']).lower(),
+       str(f['appendClearsMemo']).lower())
 
 
 def finish_built(b, app):
@@ -1539,15 +1586,58 @@ def measure_facts():
     f['kwFalsyKept'] = obs == ([7, 0], 0)
     w['kwFalsyKept'] = {'proto': 'xml', 'validator': None, 'request': 'client.service.k0(7, a1=0)',
                         'expected': 'the function receives (7, 0) and the caller gets 0 back', 'observed': repr(obs)}
+    # document spelling: what the configured parsers (all three protocols) hand over for a comment / PI inside a text value
+    for name, doc in (('commentsRemoved', b'<a>Hello, <!-- c -->World</a>'), ('pisRemoved', b'<a>Hello, <?p q?>World</a>')):
+        obs = {}
+        for proto in PROTOS:
+            po = make_app(b3, proto, None)[0].in_protocol
+            el = parse_like_spyne(doc, po)
+            obs[proto] = None if el is None else (el.text, len(el))
+        f[name] = all(v == ('Hello, World', 0) for v in obs.values())
+        w[name] = {'proto': 'xml/soap11/soap12', 'validator': None, 'request': doc.decode(),
+                   'expected': "the parser built from protocol.parser_kwargs delivers .text == 'Hello, World' and no child node",
+                   'observed': repr(obs)}
+    # chunked byte values
+    from spyne import ByteArray
+    obs = {}
+    for enc, pc in (('base64', ByteArray), ('hex', ByteArray(encoding='hex')), ('urlsafe', ByteArray(encoding='urlsafe_base64'))):
+        for chunks in ([b'a', b'bcd'], (b'', b'xyz')):
+            parent = etree.Element('r')
+            try:
+                app3.out_protocol.to_parent(None, pc, chunks, parent, 'urn:w')
+                obs['%s %r' % (enc, chunks)] = parent[0].text
+            except Exception as e:
+                obs['%s %r' % (enc, chunks)] = repr(e)
+    want = {'base64 %r' % ([b'a', b'bcd'],): 'YWJjZA==', 'base64 %r' % ((b'', b'xyz'),): 'eHl6',
+            'hex %r' % ([b'a', b'bcd'],): '61626364', 'hex %r' % ((b'', b'xyz'),): '78797a',
+            'urlsafe %r' % ([b'a', b'bcd'],): 'YWJjZA==', 'urlsafe %r' % ((b'', b'xyz'),): 'eHl6'}
+    f['bytesJoinBeforeEncode'] = obs == want
+    # class trees with a history
+    from spyne import ComplexModel, Unicode as _U, Integer as _I
+    HB = type(ComplexModel)('HistBase', (ComplexModel,), {'__namespace__': 'urn:hist', 'a': _U})
+    HM = type(ComplexModel)('HistMid', (HB,), {'__namespace__': 'urn:hist', 'm': _I})
+    HL = type(ComplexModel)('HistLeaf', (HM,), {'__namespace__': 'urn:hist', 'l': _U})
+    before = [list(c.get_flat_type_info(c)) for c in (HB, HM, HL)]
+    HB.append_field('late', _U)
+    after = [list(c.get_flat_type_info(c)) for c in (HB, HM, HL)]
+    f['appendClearsMemo'] = after == [['a', 'late'], ['a', 'late', 'm'], ['a', 'late', 'm', 'l']]
+    w['appendClearsMemo'] = {'proto': '-', 'validator': None, 'request': "HistBase(a) <- HistMid(m) <- HistLeaf(l): get_flat_type_info of "
+                             "all three, then HistBase.append_field('late', Unicode), then get_flat_type_info again",
+                             'expected': "[['a','late'], ['a','late','m'], ['a','late','m','l']]",
+                             'observed': 'before %r, after %r' % (before, after)}
+    w['bytesJoinBeforeEncode'] = {'proto': 'xml', 'validator': None, 'request': "to_parent(ByteArray, [b'a', b'bcd']) / (b'', b'xyz')",
+                                  'expected': 'the element text encodes the concatenation of the chunks: %r' % want,
+                                  'observed': repr(obs)}
     return f, w, u
 
 
 GOOD = {'nilRule': 'xsdBoolean', 'xsiTypeCheck': True, 'childAttrGuard': True, 'emptyStringText': True,
         'emptyBodyGuard': True, 'outHeaderTupleOk': True, 'kwFalsyKept': True, 'streamSameTree': True,
-        'childAttrsIgnored': True, 'attrSoftChecked': True, 'modifierChildSkipped': True, 'dataTextUnicode': True}
+        'childAttrsIgnored': True, 'attrSoftChecked': True, 'modifierChildSkipped': True, 'dataTextUnicode': True,
+        'commentsRemoved': True, 'pisRemoved': True, 'bytesJoinBeforeEncode': True, 'appendClearsMemo': True}
 SWITCH_PROPS = {'C01': ('nilRule', 'emptyStringText', 'outHeaderTupleOk', 'kwFalsyKept', 'streamSameTree', 'childAttrsIgnored',
-                        'attrSoftChecked', 'dataTextUnicode'), 'C04': ('xsiTypeCheck',), 'C05': ('nilRule', 'emptyStringText', 'attrSoftChecked', 'childAttrsIgnored'),
-                'C10': ('childAttrGuard', 'emptyBodyGuard', 'modifierChildSkipped'), 'C16': ('streamSameTree',)}
+                        'attrSoftChecked', 'dataTextUnicode', 'commentsRemoved', 'pisRemoved', 'bytesJoinBeforeEncode'), 'C04': ('xsiTypeCheck',), 'C05': ('nilRule', 'emptyStringText', 'attrSoftChecked', 'childAttrsIgnored'),
+                'C10': ('childAttrGuard', 'emptyBodyGuard', 'modifierChildSkipped'), 'C16': ('streamSameTree', 'appendClearsMemo')}
 
 
 def t1(ctx):
@@ -1856,6 +1946,9 @@ def part_c01(ctx):
                             ctx.finding('c01:response-differs:%s' % diff_kind(d),
                                         'response does not denote the returned value at %s' % d,
                                         dict(replay, decoded=dec, expected=want_out, response=r.out.decode('utf-8', 'replace')))
+                    if len(r.calls) == 1 and not r.fault and not r.crash:
+                        spelling_check(ctx, 'c01', b, app, server, proto, validator, wrap_envelope(proto, [req_node]), r,
+                                       in_ty, replay, queries, expect)
                     # ---- T2: model vs implementation
                     parsed = parse_like_spyne(data, app.in_protocol)
                     queries.append(decode_query(b, proto, validator, node_of(parsed)))
@@ -1869,17 +1962,242 @@ def part_c01(ctx):
                         ctx.cov['traces_validated_against_impl'] += 1
                         if proto == 'xml' and validator is None:
                             stream_check(ctx, b, app, r, u, out_ty, want_out, body, replay, 'c01', queries, expect, mq)
+    chunked_bytes(ctx, queries, expect)
     answers = ctx.model(queries, driver='C01')
     for q, (op, impl, case), mod in zip(queries, expect, answers):
         if impl is None:
             ctx.hit('t2:oracle-schema-reject')
         elif norm_answer(mod) != impl:
             ctx.disagree(op, case if case is not None else q, impl, mod)
+    ctx.cov['rule_spelling'] = ('every served request is sent again in an alternative spelling (random subset of: comments and '
+                                'processing instructions before / inside / after text, between children, in the envelope, in '
+                                'prolog and epilog; CDATA sections; numeric character references in text and attribute values; '
+                                'whitespace between elements; other prefixes, several prefixes for one namespace, default '
+                                'namespace declarations): same call, same arguments; byte values are returned / sent in 1..n '
+                                'chunks (lists and tuples, empty chunks, boundaries that are no multiples of 3)')
     ctx.cov['rule'] = ('type universes (classes with inheritance, nested objects depth<=4, wrapped arrays, repeated members, '
                        'primitives with facets) are generated, built into real spyne classes and introspected back; for '
                        'each method conformant argument/return values (boundary-biased, None at optional positions) are '
                        'sent through Application+ServerBase under {xml,soap11,soap12}x{None,soft,lxml}; a case is '
                        'non-trivial when the argument tree has >=2 non-null leaves and the type has depth>=2')
+
+
+# ====================================================================================== alternative spellings of a document
+SPELL_KINDS = ('comment', 'pi', 'cdata', 'charref', 'ws', 'prefix', 'defaultns', 'prolog')
+_COMMENTS = (' c ', '', '<a>&amp;</a>', ' x="1" ', 'TODO: remove')
+_PIS = (('p', 'q'), ('xml-stylesheet', 'href="s.xsl"'), ('php', 'echo 1;'), ('x', ''))
+_PREFIXES = ('a', 'b', 'ns7', 'tns', 'x-y', 'soap', 'q_1', 'xsi', 'e', 'm')
+
+
+def _esc(rng, txt, charref, attr=False):
+    out = []
+    for ch in txt:
+        if ch == '&':
+            out.append('&#38;' if charref and rng.random() < 0.5 else '&amp;')
+        elif ch == '<':
+            out.append('&#x3C;' if charref and rng.random() < 0.5 else '&lt;')
+        elif ch == '>':
+            out.append('&gt;')
+        elif attr and ch == '"':
+            out.append('&quot;')
+        elif ch == '\r' or (attr and ch in '\n\t'):
+            out.append('&#%d;' % ord(ch))
+        elif charref and rng.random() < 0.3:
+            out.append(('&#x%X;' if rng.random() < 0.5 else '&#%d;') % ord(ch))
+        else:
+            out.append(ch)
+    return ''.join(out)
+
+
+def _noise(rng, kinds):
+    """[(raw item, its spelling)] — zero or more comments / processing instructions"""
+    out = []
+    for _ in range(rng.choice([0, 1, 1, 2])):
+        opts = [k for k in ('comment', 'pi') if k in kinds]
+        if not opts:
+            break
+        if rng.choice(opts) == 'comment':
+            c = rng.choice(_COMMENTS)
+            out.append(({'c': cps(c)}, '<!--%s-->' % c))
+        else:
+            t, d = rng.choice(_PIS)
+            out.append(({'pi': [t, cps(d)]}, '<?%s%s?>' % (t, ' ' + d if d else '')))
+    return out
+
+
+def spell(rng, node, kinds):
+    """an alternative spelling of the document `node` denoting the same tree -> (bytes, Raw JSON of what was written)"""
+    kinds = set(kinds)
+    counter = [0]
+
+    def fresh(scope):
+        while True:
+            counter[0] += 1
+            p = rng.choice(_PREFIXES) if 'prefix' in kinds and rng.random() < 0.7 else 'n%d' % counter[0]
+            if p not in scope:
+                return p
+
+    def write(nd, scope):
+        scope = dict(scope)
+        decls = []
+
+        def prefix_for(ns, allow_default):
+            if allow_default and scope.get('') == ns:
+                return ''
+            cands = [p for p, u in scope.items() if u == ns and p]
+            if cands and not ('prefix' in kinds and rng.random() < 0.15):
+                return rng.choice(sorted(cands))
+            if allow_default and 'defaultns' in kinds and rng.random() < 0.7:
+                scope[''] = ns
+                decls.append('xmlns="%s"' % _esc(rng, ns, False, True))
+                return ''
+            p = fresh(scope)
+            scope[p] = ns
+            decls.append('xmlns:%s="%s"' % (p, _esc(rng, ns, False, True)))
+            return p
+        if nd['ns']:
+            ep = prefix_for(nd['ns'], True)
+        else:
+            ep = ''
+            if scope.get(''):
+                scope[''] = ''
+                decls.append('xmlns=""')
+        tag = (ep + ':' if ep else '') + nd['n']
+        attrs = []
+        for k, v in nd['a']:
+            val = uncps(v)
+            if k == XSI_TYPE and val.startswith('{'):
+                vns, vl = val[1:].split('}', 1)
+                val = prefix_for(vns, False) + ':' + vl
+            if k.startswith('{'):
+                kns, kl = k[1:].split('}', 1)
+                k2 = prefix_for(kns, False) + ':' + kl
+            else:
+                k2 = k
+            attrs.append('%s="%s"' % (k2, _esc(rng, val, 'charref' in kinds, True)))
+        head = ' '.join([tag] + decls + attrs)
+        items, body = [], []
+
+        def add(pairs):
+            for it, sp in pairs:
+                items.append(it)
+                body.append(sp)
+        if nd['c']:
+            for c in nd['c']:
+                if 'ws' in kinds and rng.random() < 0.6:
+                    w = rng.choice(['\n', ' ', '\n    ', '\t'])
+                    add([({'t': cps(w)}, w)])
+                if rng.random() < 0.4:
+                    add(_noise(rng, kinds))
+                craw, csp = write(c, scope)
+                add([({'e': craw}, csp)])
+            if 'ws' in kinds and rng.random() < 0.5:
+                add([({'t': cps('\n')}, '\n')])
+            if rng.random() < 0.3:
+                add(_noise(rng, kinds))
+        elif nd['x'] is not None:
+            txt = uncps(nd['x'])
+            cuts = sorted(rng.randrange(len(txt) + 1) for _ in range(rng.choice([0, 1, 2])))
+            pieces = [txt[i:j] for i, j in zip([0] + cuts, cuts + [len(txt)])]
+            if rng.random() < 0.3:
+                add(_noise(rng, kinds))
+            for i, pc in enumerate(pieces):
+                if i:
+                    add(_noise(rng, kinds))
+                if 'cdata' in kinds and ']]>' not in pc and '\r' not in pc and rng.random() < 0.5:
+                    add([({'cd': cps(pc)}, '<![CDATA[%s]]>' % pc)])
+                else:
+                    add([({'t': cps(pc)}, _esc(rng, pc, 'charref' in kinds))])
+            if rng.random() < 0.3:
+                add(_noise(rng, kinds))
+        elif rng.random() < 0.3:
+            add(_noise(rng, kinds))
+        raw = {'ns': nd['ns'], 'n': nd['n'], 'a': nd['a'], 'items': items}
+        if not body and rng.random() < 0.5:
+            return raw, '<%s/>' % head
+        return raw, '<%s>%s</%s>' % (head, ''.join(body), tag)
+    raw, text = write(node, {})
+    pre = post = ''
+    if 'prolog' in kinds:
+        pre = rng.choice(['', "<?xml version='1.0' encoding='UTF-8'?>\n", '<?xml version="1.0"?>']) + \
+            ''.join(sp for _, sp in _noise(rng, kinds | {'comment'})) + rng.choice(['', '\n'])
+        post = rng.choice(['', '\n']) + ''.join(sp for _, sp in _noise(rng, kinds | {'comment'}))
+    return (pre + text + post).encode('utf-8'), raw
+
+
+def spelling_check(ctx, pid, b, app, server, proto, validator, node, plain, in_ty, replay, queries, expect):
+    """T3: an alternative spelling of a request that was served is served alike — same call, same arguments;
+    T2: what the protocol's parser hands over is the model's parserView of what was written"""
+    rng = ctx.rng
+    kinds = [k for k in SPELL_KINDS if rng.random() < 0.5] or [rng.choice(SPELL_KINDS)]
+    try:
+        data, raw = spell(rng, node, kinds)
+    except UnicodeEncodeError:
+        return
+    r = run_request(b, server, data)
+    tag = '+'.join(sorted(kinds))
+    for k in kinds:
+        ctx.hit('spelling:' + k)
+    ctx.case({'p': proto, 'v': validator, 'spelling': hashlib_sha(data)}, True)
+    rp = dict(replay, request=data.decode('utf-8', 'replace'), request_hex=data.hex(), spelling=tag)
+
+    def calls_of(rr):
+        return [(n, [from_native(b, t, a) for (_, t), a in zip(b.methods[n][1]['fields'], args)]) for n, args in rr.calls]
+    if r.crash:
+        ctx.finding('%s:spelling-crash:%s' % (pid, r.crash), 'an alternative spelling (%s) of a request that is served makes the '
+                    'server raise %s at %s' % (tag, r.crash, r.tb), rp)
+    elif r.fault or r.in_fault:
+        ctx.finding('%s:spelling-rejected:%s' % (pid, r.in_fault or r.fault), 'an alternative spelling (%s) of a request that '
+                    'is served is answered with %s' % (tag, r.in_fault or r.fault),
+                    dict(rp, response=(r.out or b'').decode('utf-8', 'replace')))
+    elif calls_of(r) != calls_of(plain):
+        got, want = calls_of(r), calls_of(plain)
+        d = 'calls=%d' % len(got) if len(got) != len(want) else first_diff(want[0][1], got[0][1])
+        ctx.finding('%s:spelling-args-differ' % pid, 'an alternative spelling (%s) of a request reaches the function with other '
+                    'values (%s)' % (tag, d), dict(rp, received=got, expected=want))
+    parsed = parse_like_spyne(data, app.in_protocol)
+    if parsed is not None:
+        queries.append({'op': 'doc.view', 'cfg': cfg_json(None), 'iface': slim_iface(b, False), 'raw': raw})
+        expect.append(('doc.view', {'ok': node_of_all(parsed)}, rp))
+
+
+def chunked_bytes(ctx, queries, expect):
+    """leaf level: the text the real serialiser writes for a byte value given as chunks denotes the concatenation (T3)
+    and is the model's chunksText (T2), all three binary encodings"""
+    import base64
+    import binascii
+    from lxml import etree
+    from spyne import ByteArray
+    from spyne.protocol.xml import XmlDocument
+    rng = ctx.rng
+    prot = XmlDocument()
+    encs = (('base64', ByteArray, base64.b64decode), ('hex', ByteArray(encoding='hex'), binascii.unhexlify),
+            ('urlsafe', ByteArray(encoding='urlsafe_base64'), base64.urlsafe_b64decode))
+    for _ in range(60 if ctx.thorough else 15):
+        raw = bytes(rng.randrange(256) for _ in range(rng.choice([0, 1, 2, 3, 4, 5, 7, 10, 33])))
+        cuts = sorted(rng.randrange(len(raw) + 1) for _ in range(rng.choice([0, 1, 1, 2, 3, 5])))
+        chunks = [raw[i:j] for i, j in zip([0] + cuts, cuts + [len(raw)])]
+        chunks = tuple(chunks) if rng.random() < 0.5 else chunks
+        for enc, pc, dec in encs:
+            parent = etree.Element('r')
+            ctx.case({'probe': 'chunks', 'enc': enc, 'chunks': [list(c) for c in chunks]}, len(chunks) > 1)
+            rp = {'kind': 'probe', 'probe': 'chunked-bytes', 'enc': enc, 'chunks': [list(c) for c in chunks],
+                  'tuple': isinstance(chunks, tuple)}
+            try:
+                prot.to_parent(None, pc, chunks, parent, 'urn:x')
+                text = parent[0].text or ''
+                got = dec(text)
+            except Exception as e:
+                ctx.finding('c01:chunked-bytes-crash:%s' % type(e).__name__, 'serialising a byte value given as %d chunks raises '
+                            '%r' % (len(chunks), e), rp)
+                continue
+            ctx.hit('chunks:%s:%d' % (enc, min(len(chunks), 4)))
+            if got != raw:
+                ctx.finding('c01:chunked-bytes-differ:%s' % enc, 'a byte value handed over as %d chunks is written as text that '
+                            'denotes %d of its %d bytes' % (len(chunks), len(got), len(raw)), dict(rp, written=text))
+            queries.append({'op': 'bytes.chunksText', 'cfg': cfg_json(None), 'iface': {'classes': [], 'others': [], 'tns': ''},
+                            'enc': enc, 'chunks': [list(c) for c in chunks]})
+            expect.append(('bytes.chunksText', {'ok': cps(text)}, rp))
 
 
 # ====================================================================================== helpers shared by the parts
@@ -2129,6 +2447,38 @@ def replay(ctx, obj):
     kind = obj.get('kind')
     if kind == 'c04seq':
         return replay_c04seq(ctx, obj)
+    if kind == 'probe' and obj.get('probe') == 'c16-history':
+        new, problems = _hist_scenario(obj['op'])
+        print('scenario: classes used, then %s_field(%r) on an ancestor, then round trips' % (obj['op'], new))
+        for proto, validator, cn, where, what, req in problems[:12]:
+            print('%s/%s %s %s: %s\n    request: %s' % (proto, validator, cn, where, what, req[:400]))
+        print('%d problems' % len(problems))
+        return 1 if problems else 0
+    if kind == 'probe' and obj.get('probe') == 'c05-range':
+        ty = dict((n, t) for n, t, _ in _range_specs())[obj['type']]
+        ok, code, exc, data = _range_run(ty, obj['proto'], obj['literal'])
+        print('type %s, %s, literal %r' % (obj['type'], obj['proto'], obj['literal']))
+        print('request :', data)
+        print('accepted: %s  fault: %s  exception: %s   conforms: %s' % (ok, code, exc, obj['conforms']))
+        return 0 if (ok == obj['conforms'] and not exc) else 1
+    if kind == 'probe' and obj.get('probe') == 'chunked-bytes':
+        import base64
+        import binascii
+        from lxml import etree
+        from spyne import ByteArray
+        from spyne.protocol.xml import XmlDocument
+        chunks = [bytes(c) for c in obj['chunks']]
+        chunks = tuple(chunks) if obj.get('tuple') else chunks
+        pc, dec = {'base64': (ByteArray, base64.b64decode), 'hex': (ByteArray(encoding='hex'), binascii.unhexlify),
+                   'urlsafe': (ByteArray(encoding='urlsafe_base64'), base64.urlsafe_b64decode)}[obj['enc']]
+        parent = etree.Element('r')
+        XmlDocument().to_parent(None, pc, chunks, parent, 'urn:x')
+        text = parent[0].text or ''
+        print('chunks :', chunks)
+        print('written:', text)
+        print('denotes:', dec(text))
+        print('value  :', b''.join(chunks))
+        return 0 if dec(text) == b''.join(chunks) else 1
     if kind == 'probe' and obj.get('probe') in ('required-xmldata-none-nils-object', 'xmldata-after-elements-lost',
                                                  'qualified-attribute-not-read-back'):
         rc = 0
@@ -2281,11 +2631,16 @@ def violate(rng, b, ty, v, one=False):
             if hi is not None:
                 opts.append(({'i': str(hi + 1)}, 'int-above'))
         elif p['t'] == 'str':
+            s = list(v['s'])
+            # a conformant value followed by a line feed / CR LF, or preceded by a blank, is another value (`$` and
+            # `.strip()` are the classic ways to lose that)
+            edge = [(s + [0x0A], 'trailing-newline'), (s + [0x0D, 0x0A], 'trailing-crlf'), ([0x20] + s, 'leading-blank')]
             if p['values']:
                 opts.append(({'s': cps('zz-not-a-value')}, 'str-not-in-values'))
+                opts += [({'s': e}, 'str-values-' + tg) for e, tg in edge]
             elif p['pat'] is not None:
-                s = list(v['s'])
                 opts.append(({'s': s + [0x21]}, 'str-pattern-class'))
+                opts += [({'s': e}, 'str-pattern-' + tg) for e, tg in edge]
                 if p['pat']['max'] is not None:
                     a = p['pat']['ranges'][0][0]
                     opts.append(({'s': [a] * (p['pat']['max'] + 1)}, 'str-pattern-count'))
@@ -2294,6 +2649,8 @@ def violate(rng, b, ty, v, one=False):
                     opts.append(({'s': v['s'][:p['min'] - 1]}, 'str-too-short'))
                 if p['max'] is not None:
                     opts.append(({'s': (v['s'] + [120] * (p['max'] + 1))[:p['max'] + 1]}, 'str-too-long'))
+                    full = (s + [120] * p['max'])[:p['max']]
+                    opts.append(({'s': full + [0x0A]}, 'str-length-trailing-newline'))
     elif ty['k'] == 'obj':
         cls, fs = v['o']
         idx = list(range(len(fs)))
@@ -2339,6 +2696,39 @@ def typed_leaves(ty, node, path=()):
         for i, c in enumerate(node['c']):
             for x in typed_leaves(ty['elem'], c, path + (i,)):
                 yield x
+
+
+def string_edges(ty, v, one=False):
+    """every value obtained by putting a line feed / CR LF behind or a blank in front of ONE faceted string leaf of `v`
+    (deterministic sweep; `violate` only samples) -> [(value, tag)]"""
+    out = []
+    if v is None or not isinstance(v, dict):
+        return out
+    if not one and repeated(ty['o']):
+        for i, it in enumerate(v.get('l', [])):
+            out += [({'l': v['l'][:i] + [nv] + v['l'][i + 1:]}, tg) for nv, tg in string_edges(ty, it, True)]
+        return out
+    if ty['k'] == 'prim':
+        p = ty['p']
+        if p['t'] == 'str' and 's' in v and (p['pat'] is not None or p['values'] or p['max'] is not None):
+            facet = 'pattern' if p['pat'] is not None else 'values' if p['values'] else 'length'
+            s = list(v['s'])
+            if facet == 'length':
+                s = (s + [120] * p['max'])[:p['max']]
+            out += [({'s': s + [0x0A]}, 'edge:%s-trailing-newline' % facet), ({'s': s + [0x0D, 0x0A]}, 'edge:%s-trailing-crlf' % facet),
+                    ({'s': [0x20] + s}, 'edge:%s-leading-blank' % facet)]
+    elif ty['k'] == 'obj' and 'o' in v:
+        cls, fs = v['o']
+        if cls == ty['name']:
+            for i, ((k, t), (k2, fv)) in enumerate(zip(ty['fields'], fs)):
+                if t.get('mk'):
+                    continue
+                out += [({'o': [cls, [[kk, (nv if j == i else x)] for j, (kk, x) in enumerate(fs)]]}, tg)
+                        for nv, tg in string_edges(t, fv)]
+    elif ty['k'] == 'arr' and 'l' in v:
+        for i, it in enumerate(v['l']):
+            out += [({'l': v['l'][:i] + [nv] + v['l'][i + 1:]}, tg) for nv, tg in string_edges(ty['elem'], it, True)]
+    return out
 
 
 def typed_children(ty, node, path=()):
@@ -2429,6 +2819,12 @@ def part_c05(ctx):
                     expect.append(('okX', {'ok': exp}, {'ty': in_ty, 'val': bad}))
                     req2 = ref_encode_one(b, in_ty, bad, u['tns'], mname, u['tns'])
                     _c05_eval(ctx, b, servers, u, mname, in_ty, req2, exp, None, tag, queries, expect)
+                # 2a. every faceted string leaf followed by a line feed / CR LF or preceded by a blank
+                edges = string_edges(in_ty, inv, one=True)
+                for bad, tag in (edges if ctx.thorough else rng.sample(edges, min(len(edges), 3))):
+                    exp = py_ok(b, in_ty, bad, strict=True, one=True)
+                    req2 = ref_encode_one(b, in_ty, bad, u['tns'], mname, u['tns'])
+                    _c05_eval(ctx, b, servers, u, mname, in_ty, req2, exp, None, tag, queries, expect)
                 # 2b. an element deleted / duplicated (occurrence constraints at the document level)
                 kids = list(typed_children(in_ty, req))
                 rng.shuffle(kids)
@@ -2501,6 +2897,7 @@ def part_c05(ctx):
                                                                          'validator': 'soft', 'method': 'm0',
                                                                          'request': data.decode()})
     attrs_hostile(ctx, 'c05')
+    c05_ranges(ctx)
     ctx.cov['exhaustive'] = 'i8/u8 bounds at top-level, nested and array-member positions: %d values x 5 positions x 3 protocols' % len(rng_vals)
     answers = ctx.model(queries, driver='C01')
     for q, (op, impl, case), mod in zip(queries, expect, answers):
@@ -2513,6 +2910,115 @@ def part_c05(ctx):
                                'occurrence counts, mandatory members) at a random nesting position, and leaf texts from a '
                                'dictionary of unusual literals; verdict compared with the Python re-statement of okX (itself '
                                'diffed against Lean)')
+
+
+# ====================================================================================== C05: range facets outside the Lean universe
+def _range_specs():
+    """types with ge / gt / le / lt bounds that the shared PrimTy cannot express (T3 only) and probe literals on / just
+    inside / just outside every bound -> [(name, spyne type, [(literal, conforms?)])]. DateTime is compared as an INSTANT
+    whatever offset the literal carries; a literal without offset is UTC (spyne.LOCAL_TZ)."""
+    import datetime as D
+    import decimal
+    import math
+    import pytz
+    from spyne import DateTime, Date, Time, Decimal, Double
+    utc = pytz.utc
+    A, B = D.datetime(2020, 1, 1, tzinfo=utc), D.datetime(2021, 1, 1, 12, 30, tzinfo=utc)
+    specs = []
+
+    def dt_lits(inside):
+        out = []
+        for bound in (A, B):
+            for delta in (-18000, -1801, -1, -0.000001, 0, 0.000001, 1, 1801, 18000):
+                inst = bound + D.timedelta(seconds=delta)
+                for off in (None, 'Z', 0, 300, -300, 840, -720, 30, -1):
+                    if off is None or off == 'Z':
+                        lit = inst.replace(tzinfo=None).isoformat() + ('Z' if off == 'Z' else '')
+                    else:
+                        lit = inst.astimezone(D.timezone(D.timedelta(minutes=off))).isoformat()
+                    out.append((lit, inside(inst)))
+        return out
+    specs.append(('dateTime[ge,lt)', DateTime(ge=A, lt=B), dt_lits(lambda x: A <= x < B)))
+    specs.append(('dateTime(gt,le]', DateTime(gt=A, le=B), dt_lits(lambda x: A < x <= B)))
+    nA, nB = A.replace(tzinfo=None), B.replace(tzinfo=None)
+    specs.append(('dateTime[ge,le]:naive-bounds', DateTime(ge=nA, le=nB), dt_lits(lambda x: A <= x <= B)))
+    d0, d1 = D.date(2020, 2, 29), D.date(2020, 12, 31)
+    days = [d0 + D.timedelta(days=k) for k in (-366, -1, 0, 1)] + [d1 + D.timedelta(days=k) for k in (-1, 0, 1, 366)]
+    specs.append(('date[ge,le]', Date(ge=d0, le=d1), [(x.isoformat(), d0 <= x <= d1) for x in days]))
+    specs.append(('date(gt,lt)', Date(gt=d0, lt=d1), [(x.isoformat(), d0 < x < d1) for x in days]))
+    t0, t1 = D.time(8, 0), D.time(17, 30, 0, 500000)
+    ts = [D.time(0, 0), D.time(7, 59, 59, 999999), t0, D.time(8, 0, 0, 1), D.time(12, 0), D.time(17, 30, 0, 499999), t1,
+          D.time(17, 30, 0, 500001), D.time(23, 59, 59, 999999)]
+    specs.append(('time(gt,lt)', Time(gt=t0, lt=t1), [(x.isoformat(), t0 < x < t1) for x in ts]))
+    specs.append(('time[ge,le]', Time(ge=t0, le=t1), [(x.isoformat(), t0 <= x <= t1) for x in ts]))
+    # (spyne's Duration has no range facets: ge / le keywords are stored but never consulted)
+    c0, c1 = decimal.Decimal('-1.5'), decimal.Decimal('10')
+    decs = ['-100', '-1.500001', '-1.5', '-1.50', '-1.499999', '0', '9.999999999', '10', '10.0', '10.000000001', '1e1', '1E+3']
+    specs.append(('decimal[ge,lt)', Decimal(ge=c0, lt=c1), [(x, c0 <= decimal.Decimal(x) < c1) for x in decs]))
+    specs.append(('decimal(gt,le]', Decimal(gt=c0, le=c1), [(x, c0 < decimal.Decimal(x) <= c1) for x in decs]))
+    f0, f1 = 0.1, 2.5
+    fls = [-1.0, 0.0, math.nextafter(f0, -1), f0, math.nextafter(f0, 1), 1.0, math.nextafter(f1, 0), f1, math.nextafter(f1, 9), 1e300]
+    specs.append(('double(gt,le]', Double(gt=f0, le=f1), [(repr(x), f0 < x <= f1) for x in fls]))
+    specs.append(('double[ge,lt)', Double(ge=f0, lt=f1), [(repr(x), f0 <= x < f1) for x in fls]))
+    return specs
+
+
+_RANGE_SERVERS = {}
+
+
+def _range_run(spec_type, proto, literal):
+    """one request `<take><v>literal</v></take>` under soft validation -> (accepted?, fault code, exception, bytes)"""
+    from spyne import Application, ServiceBase, rpc, Unicode, MethodContext
+    from spyne.server import ServerBase
+    key = (id(spec_type), proto)
+    if key not in _RANGE_SERVERS:
+        calls = []
+
+        def take(ctx, v):
+            calls.append(v)
+            return 'ok'
+        S = type('RangeSvc', (ServiceBase,), {'take': rpc(spec_type, _returns=Unicode)(take)})
+        app = Application([S], 'urn:rng', in_protocol=make_protocol(proto, 'soft'), out_protocol=make_protocol(proto, None))
+        _RANGE_SERVERS[key] = (ServerBase(app), calls, spec_type)
+    server, calls, _ = _RANGE_SERVERS[key]
+    del calls[:]
+    body = mk_node('urn:rng', 'take', children=[mk_node('urn:rng', 'v', text=cps(literal))])
+    data = to_bytes(wrap_envelope(proto, [body]))
+    ictx = MethodContext(server, MethodContext.SERVER)
+    ictx.in_string = [data]
+    try:
+        c, = server.generate_contexts(ictx)
+        if c.in_error is None:
+            server.get_in_object(c)
+        if c.in_error is None:
+            server.get_out_object(c)
+        err = c.in_error or c.out_error
+        return bool(calls), (err.faultcode if err is not None else None), None, data
+    except Exception as e:      # noqa: the finding
+        return bool(calls), None, '%s: %s' % (type(e).__name__, e), data
+
+
+def c05_ranges(ctx):
+    """T3 only: ge / gt / le / lt on Date, Time, DateTime, Decimal, Double under soft validation, all three
+    protocols; verdict against Python's own ordering of the denoted values"""
+    specs = _range_specs()
+    for name, ty, lits in specs:
+        for proto in PROTOS:
+            for lit, want in (lits if ctx.thorough or len(lits) <= 40 else ctx.rng.sample(lits, 40)):
+                ok, code, exc, data = _range_run(ty, proto, lit)
+                ctx.case({'probe': 'range', 'type': name, 'p': proto, 'lit': lit}, True)
+                ctx.hit('c05:range:%s:%s' % (name, 'accept' if ok else 'reject'))
+                rp = {'kind': 'probe', 'probe': 'c05-range', 'type': name, 'proto': proto, 'literal': lit, 'conforms': want,
+                      'request': data.decode('utf-8', 'replace')}
+                if exc or (code and not code.startswith('Client')):
+                    ctx.finding('c05:range-crash:%s' % name, 'soft validation of %s on %r ends with %s' % (name, lit, exc or code), rp)
+                elif ok != want:
+                    ctx.finding('c05:verdict:range:%s:%s' % (name, 'accepted' if ok else 'rejected'),
+                                'soft validation %s %r for %s, which %s the declared range' % (
+                                    'accepted' if ok else 'rejected', lit, name, 'is within' if want else 'is outside'), rp)
+    ctx.cov['rule_c05_ranges'] = ('T3 only (outside the Lean universe): ge/gt/le/lt on Date, Time, DateTime (aware and naive bounds; '
+                                  'literals with offsets Z, +-5h, +14h, -12h, +30min, -1min, none = UTC, compared as instants), '
+                                  'Decimal, Double (spyne.Duration has no range facets); values on / just inside / just outside every bound')
 
 
 _LEX_CLASSES = {
@@ -2630,6 +3136,152 @@ def has_subclass_instance(b, ty, v):
     return False
 
 
+# ====================================================================================== C16: class trees with a history
+_HIST_COUNTER = [0]
+
+
+def history_tree():
+    """a fresh class tree Base(a) <- Mid(m) <- Leaf(l), Side(s) <- Base, with an echo service over Base and Array(Base);
+    reusable by other blocks: returns (namespace, classes by short name, service class, list that records arguments)"""
+    from spyne import ServiceBase, rpc, ComplexModel, Unicode, Integer, Array
+    _HIST_COUNTER[0] += 1
+    n = _HIST_COUNTER[0]
+    ns = 'urn:hist%d' % n
+    mk = type(ComplexModel)
+    Base = mk('HBase%d' % n, (ComplexModel,), {'__namespace__': ns, '_type_info': [('a', Unicode)]})
+    Mid = mk('HMid%d' % n, (Base,), {'__namespace__': ns, '_type_info': [('m', Integer)]})
+    Leaf = mk('HLeaf%d' % n, (Mid,), {'__namespace__': ns, '_type_info': [('l', Unicode)]})
+    Side = mk('HSide%d' % n, (Base,), {'__namespace__': ns, '_type_info': [('s', Unicode)]})
+    seen = []
+
+    def echo(ctx, v):
+        seen.append(v)
+        return v
+
+    def echo_all(ctx, vs):
+        seen.append(vs)
+        return vs
+    Svc = type('HSvc%d' % n, (ServiceBase,), {'echo': rpc(Base, _returns=Base)(echo),
+                                              'echo_all': rpc(Array(Base), _returns=Array(Base))(echo_all)})
+    return ns, {'Base': Base, 'Mid': Mid, 'Leaf': Leaf, 'Side': Side}, Svc, seen
+
+
+def _hist_run(ns, Svc, seen, proto, validator, body):
+    from lxml import etree
+    from spyne import Application, MethodContext
+    from spyne.server import ServerBase
+    app = Application([Svc], ns, in_protocol=make_protocol(proto, validator, polymorphic=True),
+                      out_protocol=make_protocol(proto, None, polymorphic=True))
+    server = ServerBase(app)
+    env = body if proto == 'xml' else '<e:Envelope xmlns:e="%s"><e:Body>%s</e:Body></e:Envelope>' % (
+        NS_SOAP11 if proto == 'soap11' else NS_SOAP12, body)
+    del seen[:]
+    ictx = MethodContext(server, MethodContext.SERVER)
+    ictx.in_string = [env.encode('utf-8')]
+    c, = server.generate_contexts(ictx)
+    if c.in_error is None:
+        server.get_in_object(c)
+    if c.in_error is None:
+        server.get_out_object(c)
+    err = c.in_error or c.out_error
+    server.get_out_string(c)
+    out = b''.join(c.out_string)
+    return list(seen), (err.faultcode if err is not None else None), unwrap_envelope(proto, etree.fromstring(out)), env
+
+
+def _hist_scenario(op):
+    """warm the tree in every protocol, change an ancestor, round-trip instances of every class again
+    -> [(proto, validator, class, position, problem, request)]"""
+    ns, C, Svc, seen = history_tree()
+    order = {'Base': ['a'], 'Mid': ['a', 'm'], 'Leaf': ['a', 'm', 'l'], 'Side': ['a', 's']}
+    vals = {'a': 'A', 'm': '3', 'l': 'L', 's': 'S', 'late': 'NEW', 'early': '7'}
+
+    def inst_xml(tag, cname, fields):
+        kids = ''.join('<h:%s>%s</h:%s>' % (k, vals[k], k) for k in fields)
+        return '<%s xmlns:h="%s" xmlns:xsi="%s" xsi:type="h:%s">%s</%s>' % (tag, ns, XSI, C[cname].get_type_name(), kids, tag)
+
+    def one(cname, fields):
+        return '<h:echo xmlns:h="%s">%s</h:echo>' % (ns, inst_xml('h:v', cname, fields))
+
+    def many(cnames, fields_of):
+        items = ''.join(inst_xml('h:%s' % C['Base'].get_type_name(), cn, fields_of[cn]) for cn in cnames)
+        return '<h:echo_all xmlns:h="%s"><h:vs>%s</h:vs></h:echo_all>' % (ns, items)
+    for proto in PROTOS:                                   # the tree is in use
+        for cn in ('Base', 'Mid', 'Leaf', 'Side'):
+            _hist_run(ns, Svc, seen, proto, None, one(cn, order[cn]))
+        _hist_run(ns, Svc, seen, proto, None, many(['Leaf', 'Base', 'Side', 'Mid'], order))
+    from spyne import Unicode, Integer
+    if op == 'append':
+        C['Base'].append_field('late', Unicode)
+        order = {'Base': ['a', 'late'], 'Mid': ['a', 'late', 'm'], 'Leaf': ['a', 'late', 'm', 'l'], 'Side': ['a', 'late', 's']}
+        new = 'late'
+    else:
+        C['Mid'].insert_field(0, 'early', Integer)
+        order = {'Base': ['a'], 'Mid': ['a', 'early', 'm'], 'Leaf': ['a', 'early', 'm', 'l'], 'Side': ['a', 's']}
+        new = 'early'
+    problems = []
+
+    def check_obj(o, cn, where, proto, validator, req):
+        if o is None or type(o).get_type_name() != C[cn].get_type_name():
+            problems.append((proto, validator, cn, where, 'the function received %r instead of a %s' % (o, cn), req))
+        else:
+            for k in order[cn]:
+                if str(getattr(o, k, None)) != vals[k]:
+                    problems.append((proto, validator, cn, where, 'the function received %s.%s = %r, sent %r' % (
+                        cn, k, getattr(o, k, None), vals[k]), req))
+
+    def check_el(el, cn, where, proto, validator, req):
+        got = [(etree_local(c), c.text) for c in el]
+        want = [(k, vals[k]) for k in order[cn]]
+        if got != want:
+            problems.append((proto, validator, cn, where, 'the response carries %r for a %s, parents-first expectation %r' % (
+                got, cn, want), req))
+    for proto in PROTOS:
+        for validator in (None, 'soft'):
+            for cn in ('Base', 'Mid', 'Leaf', 'Side'):
+                req = one(cn, order[cn])
+                got, fault, resp, env = _hist_run(ns, Svc, seen, proto, validator, req)
+                if fault or len(got) != 1:
+                    problems.append((proto, validator, cn, 'argument', 'fault %s, %d calls' % (fault, len(got)), env))
+                    continue
+                check_obj(got[0], cn, 'argument', proto, validator, env)
+                check_el(resp[0], cn, 'result', proto, validator, env)
+            cns = ['Leaf', 'Base', 'Side', 'Mid', 'Leaf']
+            got, fault, resp, env = _hist_run(ns, Svc, seen, proto, validator, many(cns, order))
+            if fault or len(got) != 1 or got[0] is None or len(got[0]) != len(cns):
+                problems.append((proto, validator, 'Array(Base)', 'argument', 'fault %s, received %r' % (fault, got), env))
+                continue
+            for o, cn in zip(got[0], cns):
+                check_obj(o, cn, 'array item', proto, validator, env)
+            for el, cn in zip(resp[0], cns):
+                check_el(el, cn, 'array item of the result', proto, validator, env)
+    return new, problems
+
+
+def etree_local(el):
+    from lxml import etree
+    return etree.QName(el).localname
+
+
+def c16_history(ctx):
+    """history dimension: use the subclasses, then append_field / insert_field on an ancestor, then round-trip
+    instances of every class (depth 1-3, also as items of an array of the base) through xml / soap11 / soap12"""
+    for op in ('append', 'insert'):
+        new, problems = _hist_scenario(op)
+        ctx.case({'probe': 'c16-history', 'op': op}, True)
+        ctx.hit('c16:history:%s:%s' % (op, 'lost' if problems else 'ok'))
+        for proto, validator, cn, where, what, req in problems[:6]:
+            ctx.finding('c16:history:%s:%s:%s' % (op, cn, where.split()[0]),
+                        'after %s_field(%r) on an ancestor that was already in use, %s (%s, validator=%s): %s' % (
+                            op, new, where, proto, validator, what),
+                        {'kind': 'probe', 'probe': 'c16-history', 'op': op, 'proto': proto, 'validator': validator, 'class': cn,
+                         'request': req})
+    ctx.cov['rule_c16_history'] = ('Base<-Mid<-Leaf, Base<-Side used in every protocol, then Base.append_field / '
+                                   'Mid.insert_field(0, ...), then instances of all four classes (directly and as items of '
+                                   'Array(Base)) through {xml,soap11,soap12} x {None,soft}, polymorphic: values at the '
+                                   'function and parents-first element order in the response')
+
+
 def part_c16(ctx):
     """class trees (depth <= 3, subclasses in the namespace of their base), instances of subclasses at declared-base
     positions (members, array items, repeated members); polymorphic on/off; class identity and field equality at the
@@ -2726,6 +3378,7 @@ def part_c16(ctx):
             ctx.hit('t2:oracle-schema-reject')
         elif norm_answer(mod) != impl:
             ctx.disagree(op, case, impl, mod)
+    c16_history(ctx)
     ctx.cov['rule_c16_xml'] = ('generated class trees (3-6 classes, inheritance probability .75, depth<=3, subclass in the namespace of its base; '
                                'namespace); argument and return values hold instances of random registered descendants of the '
                                'declared classes; xml/soap11/soap12 x validator None/soft x polymorphic on/off; non-trivial = the '
@@ -3665,6 +4318,8 @@ def bad_literal(rng, p, current=None):
             opts = ['zz-not-a-value']
         elif p['pat'] is not None:
             opts = [(current or '') + '!'] if not any(a <= 0x21 <= z for a, z in p['pat']['ranges']) else []
+            if current and not any(a <= 0x0A <= z for a, z in p['pat']['ranges']):
+                opts.append(current + '\n')
         else:
             if p['max'] is not None:
                 opts.append('x' * (p['max'] + 1))
@@ -3906,6 +4561,8 @@ def part_c01_attrs(ctx, pid='c01'):
                     elif len(r.calls) != 1:
                         ctx.finding('%s:attrs-calls=%d' % (pid, len(r.calls)), 'function invoked %d times' % len(r.calls), replay)
                     else:
+                        spelling_check(ctx, pid, b, app, server, proto, validator, wrap_envelope(proto, [req]), r, in_ty,
+                                       replay, queries, expect)
                         got = msg_val(in_ty, [from_native(b, t, a) for (_, t), a in zip(in_ty['fields'], r.calls[0][1])])
                         if got != want_in:
                             d = first_diff(want_in, got)
